@@ -13,9 +13,10 @@ TECHNIQUE = ('explicit-state search over API call histories on real Problems (fr
              'invariants: byte-identical model vectors across read-only calls, differential oracle '
              'against the history with the read-only calls removed (hidden-state leaks), and two '
              'independent builds for determinism')
-RULE = ('8 base models (feed-forward, NLBGS+Aitken cycle, Newton+bounds line search, Broyden, '
+RULE = ('9 base models (feed-forward, NLBGS+Aitken cycle, Newton+bounds line search, Broyden, '
         'approx_totals group, partial-coloring component, chain and Newton cycle of array ExecComps '
-        'with force_alloc_complex) x all histories of length <= 3 (quick, third '
+        'with force_alloc_complex, sub-group approximating its totals around a component that can be '
+        'armed to abort a compute_totals with an AnalysisError) x all histories of length <= 3 (quick, third '
         'operation from a reduced alphabet) / <= 4 (thorough, reduced from the third) over {run_model, '
         'set_val x2, set_val of an output, run_driver, compute_totals, jacvec fwd, jacvec rev, check_partials fd, '
         'check_partials cs, check_totals, list_inputs, list_outputs, list_vars, total coloring}; '
@@ -34,12 +35,12 @@ ASSUMPTIONS = ['run_driver (default Driver), run_model and set_val are the mutat
 MIN_NONTRIVIAL = {'quick': 3000, 'thorough': 12000}
 
 MUT = ('run_model', 'set_a', 'set_b', 'run_driver', 'set_out')
-RO = ('totals', 'jv_fwd', 'jv_rev', 'cp_fd', 'cp_cs', 'check_totals', 'list_inputs', 'list_outputs',
+RO = ('totals_abort', 'totals', 'jv_fwd', 'jv_rev', 'cp_fd', 'cp_cs', 'check_totals', 'list_inputs', 'list_outputs',
       'list_vars', 'coloring')
-OPS = MUT + RO
+OPS = MUT + RO[1:]                 # 'totals_abort' only exists on the 'abortfd' model
 REDUCED = ('run_model', 'set_b', 'set_out', 'totals', 'jv_rev', 'cp_fd', 'check_totals', 'coloring')
 
-MODELS = ['ff', 'nlbgs_aitken', 'newton_ls', 'broyden', 'approx', 'colorcomp', 'execcomp', 'execnewton']
+MODELS = ['ff', 'nlbgs_aitken', 'newton_ls', 'broyden', 'approx', 'colorcomp', 'execcomp', 'execnewton', 'abortfd']
 
 
 def _exec_problem(pal, cyc):
@@ -74,7 +75,49 @@ def _exec_problem(pal, cyc):
     return p
 
 
+def _abort_problem(pal):
+    """a sub-group that approximates its totals by finite differences around a component that can
+    be armed to raise an AnalysisError at its n-th evaluation (a perturbed point of the sweep)"""
+    import openmdao.api as om
+
+    class Armed(om.ExplicitComponent):
+        def setup(self):
+            self.add_input('x', np.ones(3))
+            self.add_output('y', np.ones(3))
+            self.arm = None
+
+        def compute(self, inputs, outputs):
+            if self.arm is not None:
+                self.arm -= 1
+                if self.arm <= 0:
+                    self.arm = None
+                    raise om.AnalysisError('armed evaluation')
+            outputs['y'] = 2.0 * inputs['x'] + inputs['x'] ** 2
+
+    p = om.Problem(reports=None)
+    m = p.model
+    m.add_subsystem('ivc', om.IndepVarComp('p', np.array([[0.5, -1.25, 2.0], [-0.625, 0.25, 1.5],
+                                                          [1.0, 0.75, -0.5]][pal])))
+    G = m.add_subsystem('G', om.Group())
+    G.add_subsystem('comp', Armed())
+    G.add_subsystem('post', om.ExecComp('w = 0.5*y + 1.0', y=np.ones(3), w=np.ones(3)))
+    G.connect('comp.y', 'post.y')
+    G.approx_totals(method='fd')
+    m.connect('ivc.p', 'G.comp.x')
+    m.add_subsystem('tail', om.ExecComp('z = 3.0*w', w=np.ones(3), z=np.ones(3)))
+    m.connect('G.post.w', 'tail.w')
+    m.add_design_var('ivc.p')
+    m.add_constraint('tail.z')
+    m.add_constraint('G.comp.y')
+    p.driver.declare_coloring(show_summary=False, show_sparsity=False)
+    p.setup()
+    return p
+
+
 def _spec(mname, pal):
+    if mname == 'abortfd':
+        return {'custom': mname, 'palette': pal, 'dvs': [{'name': 'ivc.p'}],
+                'responses': [{'name': 'tail.z'}, {'name': 'G.comp.y'}]}
     if mname in ('execcomp', 'execnewton'):
         return {'custom': mname, 'palette': pal, 'dvs': [{'name': 'ivc.p'}],
                 'responses': [{'name': 'c3.y'}, {'name': 'G.c1.y'}]}
@@ -115,7 +158,7 @@ def _spec(mname, pal):
 def cases(tier, seed):
     out = []
     for m in MODELS:
-        for first in OPS:
+        for first in OPS + (('totals_abort',) if m == 'abortfd' else ()):
             out.append({'model': m, 'first': first, 'tier': tier, 'palette': seed % 3})
     return out
 
@@ -131,7 +174,14 @@ def _build(spec, mname):
         prob.driver.declare_coloring(show_summary=False, show_sparsity=False)
     with contextlib.redirect_stdout(buf), contextlib.redirect_stderr(buf):
         np.random.seed(3)
-        if spec.get('custom'):
+        # OpenMDAO draws the perturbations of its sparsity sweeps from its own module-level
+        # generator: own that source of randomness too
+        import openmdao.utils.array_utils as _au
+        if hasattr(_au, '_randgen'):
+            _au._randgen = np.random.default_rng(3)
+        if spec.get('custom') == 'abortfd':
+            prob = _abort_problem(spec['palette'])
+        elif spec.get('custom'):
             prob = _exec_problem(spec['palette'], spec['custom'] == 'execnewton')
         else:
             prob, info = ir.build(spec, mode='rev' if mname in ('nlbgs_aitken', 'broyden') else None,
@@ -192,6 +242,18 @@ def _apply(prob, spec, op):
             prob.run_driver()
         elif op == 'totals':
             return prob.compute_totals(of=of, wrt=wrt, return_format='flat_dict')
+        elif op == 'totals_abort':
+            # a compute_totals aborted by an AnalysisError raised at the 2nd perturbed evaluation
+            import openmdao.api as om
+            comp = prob.model.G.comp
+            comp.arm = 3
+            try:
+                prob.compute_totals(of=of, wrt=wrt, return_format='flat_dict')
+            except om.AnalysisError:
+                pass
+            finally:
+                comp.arm = None
+            return None
         elif op in ('jv_fwd', 'jv_rev') and spec.get('custom'):
             names, mode = (wrt, 'fwd') if op == 'jv_fwd' else (of, 'rev')
             seed = {n: 0.5 + np.arange(np.size(prob.get_val(n))).reshape(np.shape(prob.get_val(n)))
@@ -294,8 +356,11 @@ def check_case(case):
         first = case['first']
         maxlen = 3 if case['tier'] == 'quick' else 4
         hists = [(first,)]
+        ops, red = OPS, REDUCED
+        if mname == 'abortfd':
+            ops, red = OPS + ('totals_abort',), REDUCED + ('totals_abort',)
         for ln in range(2, maxlen + 1):
-            for tail in itertools.product(*[OPS if (j == 0 and ln == 2) or (j == 0) else REDUCED
+            for tail in itertools.product(*[ops if (j == 0 and ln == 2) or (j == 0) else red
                                             for j in range(ln - 1)]):
                 hists.append((first,) + tail)
     import collections
